@@ -126,6 +126,7 @@ class CSSStyleSheet(css_parser.stylesheets.StyleSheet):
         cssRules.__delitem__ = self.deleteRule
 
         for rule in cssRules:
+            rule._parentRule = None
             rule._parentStyleSheet = self
 
         self._cssRules = cssRules
@@ -806,7 +807,8 @@ class CSSStyleSheet(css_parser.stylesheets.StyleSheet):
                         return
                 self._cssRules.insert(index, rule)
 
-        # post settings
+        # post settings: the rule is a top-level rule of this sheet now
+        rule._parentRule = None
         rule._parentStyleSheet = self
 
         if rule.IMPORT_RULE == rule.type and not rule.hrefFound:
